@@ -80,15 +80,34 @@ PROPS['C08'] = {
 
 PROPS['C11'] = {
     'level': 'other', 'claimed': True,
-    'claim': 'sufficient conditions for schedule independence and termination, proved on the real worker closures (Compare, CompareWeighted): (1) ownership - no store of a worker hits a variable captured from the enclosing function (every Store is checked against every captured cell); the shared index is only read through EdgeIndex.Value whose contract assigns nothing; (2) completion - wg.Done() is executed exactly once on every exit path, the closer waits and closes the result channel exactly once, the result channel is never nil/closed at a send; (3) one record is sent per received tree and the error of an erroneous tree reaches the record. Not an exploration of interleavings',
-    'level_note': 'A-OWN: ownership discipline implies data-race freedom and schedule independence under the Go memory model (trusted meta-theorem); sync.WaitGroup / channels / RWMutex semantics trusted; FBP and TBE workers are added as their contracts discharge',
+    'claim': 'sufficient conditions for schedule independence and termination, proved on the real worker closures (Compare, CompareWeighted, FBP, TBE feeder and edge workers): (1) ownership - no store of a worker hits a variable captured from the enclosing function (every Store is checked against every captured cell and every object a captured pointer refers to, unless a mutex is held); the shared index is only read through EdgeIndex.Value whose contract assigns nothing; (2) completion - wg.Done() is executed exactly once on every exit path, the closer waits and closes the result channel exactly once, the result channel is never nil/closed at a send; (3) one record is sent per received tree and the error of an erroneous tree reaches the record. Not an exploration of interleavings',
+    'level_note': 'A-OWN: ownership discipline implies data-race freedom and schedule independence under the Go memory model (trusted meta-theorem); sync.WaitGroup / channels / RWMutex semantics trusted',
     'packages': ALLPK,
     'functions': [('tree.Compare$1', {'match': [r'^ownership', r'^post\.done', r'^nilchan', r'^sendclosed', r'^send\.stats\.error', r'^inv\..*L1']}),
                   ('tree.Compare$2', {}),
                   ('tree.CompareWeighted$1', {'match': [r'^ownership', r'^post\.done', r'^nilchan', r'^sendclosed', r'^send\.stats\.error', r'^inv\..*L1']}),
-                  ('tree.CompareWeighted$2', {})],
+                  ('tree.CompareWeighted$2', {}),
+                  ('support.FBP$1', {'match': [r'^ownership', r'^post\.done', r'^nilchan', r'^sendclosed', r'^return', r'^inv\..*L1']}),
+                  ('support.FBP$2', {}),
+                  ('support.TBE$1', {}),
+                  ('support.TBE$2', {'match': [r'^ownership', r'^post\.done', r'^nilchan', r'^inv']})],
     'trusted_base': TB_COMMON + ['A-OWN: ownership discipline => race freedom and schedule independence (Go memory model)'],
     'assumptions': A_COMMON,
     'explanation': 'Deductive proof of an ownership + completion protocol on the worker closures; sequential VCs cannot enumerate interleavings, so the result is a sufficient-condition argument (DESIGN.md section 4, C11).',
     'not_decided': ['real interleavings, buffer-size dependent deadlocks, fairness', 'object-level ownership of the received tree vs. the reference tree (callee contracts are thin)'],
+}
+
+PROPS['C10'] = {
+    'level': 'proof', 'claimed': True,
+    'claim': 'unbounded proofs on the real code of: FBP worker (a bootstrap tree is counted and indexed only after indexing and the taxon check succeeded; only inner bootstrap branches are indexed; index i is sent exactly for reference branches found in the bootstrap index; input, indexing and taxon errors are recorded in the result), FBP collector/final loop (support of an inner reference branch = number of messages for it / number of accepted trees; tip branches keep their support), TBE (a bootstrap tree is indexed and used only after a successful taxon check) and NormalizeTransferDistancesByDepth (support := 1 - (sum/nboot)/(depth-1) for every branch with a present value, absent values stay absent)',
+    'level_note': 'relative to the assumed (thin) contracts of ReinitIndexes, Edges, CompareTipIndexes, EdgeIndex.Value/PutEdgeValue, MinTransferDist; channel message invariants; the split-class abstraction of the index (found in index <=> same split) is C04; minTransferDistRecur = Hamming minimum is not under contract',
+    'packages': ALLPK,
+    'functions': [('support.FBP$1', {'match': [r'^callsite', r'^send\.foundEdges', r'^return', r'^inv', r'^nil', r'^bounds', r'^pre', r'^typeassert']}),
+                  ('support.FBP', {'match': [r'^step', r'^inv', r'^bounds', r'^nil', r'^nilchan']}),
+                  ('support.TBE', {'match': [r'^callsite']}),
+                  'support.NormalizeTransferDistancesByDepth',
+                  '(*tree.Edge).HashCode'],
+    'trusted_base': TB_COMMON,
+    'assumptions': A_COMMON,
+    'not_decided': ['transfer distance = minimum Hamming distance (minTransferDistRecur)', 'TBE >= FBP and range lemmas', 'order independence of floating-point sums (A-FP)'],
 }
